@@ -171,6 +171,8 @@ def file_spec_for_append(w, rng, fm, name=None, nvars=1):
 
 def gen_step(w, rng):
     cfg = w.cfg
+    if getattr(w, "dead", False):
+        return None
     plan = getattr(w, "plan", None)
     while plan:
         f = plan.pop(0)
@@ -397,11 +399,25 @@ def exec_step(w, s):
     if fault:
         from dsim.worlds import file_faults
         return file_faults.run_with_fault(w, s, fn)
+    if getattr(w, "dead", False):
+        return "skipped"
     FS.begin_step()
     try:
         return fn(w, s)
     except Skip:
         return "skipped"
+    except Violation:
+        raise
+    except Exception as e:
+        from dsim.worlds.datasets import raised_in_library
+        if not raised_in_library(e):
+            raise
+        if "C19" in w.props and op in ("open", "h_close", "h_axes_append", "h_meta", "read", "ds_write", "arr_write", "h_set"):
+            raise Violation("C19", "write_raises", "%s (%s) raised %s: %s" % (
+                op, ", ".join("%s=%r" % kv for kv in sorted(s.items()) if kv[0] not in ("op", "spec", "arr", "specs")), type(e).__name__, str(e)[:160]))
+        w.dead = True
+        w.count("world_stopped_library_raised_in_%s" % op)
+        return "raise:" + type(e).__name__
     finally:
         finalize_leaks(w)
 
